@@ -407,3 +407,33 @@ def case_fpc(ctx, cfg):
     tc, e = ctx.call(lambda: t * c1)
     if e is not None or not proj_eq(tc.array, c2.array, 1e-7):
         ctx.fail("from_points_and_conics:conic", "t*conic1", inputs, c2.array, e if e is not None else tc.array)
+
+
+def enum_noincidence(tier, seed):
+    for n1 in CONICS_LP:
+        for k in (0, 1):
+            yield (n1, k)
+
+
+@family("C08", "from_points_and_conics_no_incidence", enum_noincidence)
+def case_noincidence(ctx, cfg):
+    import geometer as G
+    from geometer.exceptions import NoIncidence
+
+    n1, k = cfg
+    ctx.state(cfg)
+    c1 = G.Conic(np.array(CONICS_LP[n1][0], dtype=float))
+    c2 = G.Conic(np.array(CONICS_LP["circle1"][0], dtype=float))
+    pts1 = [list(v) for v in CONICS_LP[n1][1][:3]]
+    pts1[k] = [pts1[k][0] + 1, pts1[k][1] + 2, pts1[k][2]]  # moved off the conic
+    if sum(CONICS_LP[n1][0][i][j] * pts1[k][i] * pts1[k][j] for i in range(3) for j in range(3)) == 0:
+        ctx.skipped += 1
+        return
+    P1 = [G.Point(np.array(v, dtype=float)) for v in pts1]
+    P2 = [G.Point(np.array(v, dtype=float)) for v in CONICS_LP["circle1"][1][:3]]
+    for a, b, ca, cb, tag in ((P1, P2, c1, c2, "source"), (P2, P1, c2, c1, "target")):
+        r, e = ctx.call(G.Transformation.from_points_and_conics, a, b, ca, cb)
+        ctx.trace()
+        if not isinstance(e, NoIncidence):
+            ctx.fail(f"from_points_and_conics:point-off-conic:{tag}:{'no-raise' if e is None else type(e).__name__}", "from_points_and_conics", {"conic": n1, "moved_point": k, "side": tag}, "NoIncidence", e if e is not None else r.array)
+            return
